@@ -1342,7 +1342,12 @@ fn resolve_types_and_aliases(
     let mut aliases_report = AnalyzeReport::default();
 
     let mut pass_count = 0usize;
-    let max_passes = 100usize; // prevent infinite loops
+
+    // every pass resolves at least one more link of a chain of definitions, so one pass per
+    // definition (plus one) is enough; definitions that are still unresolved after that never
+    // will be (e.g. an alias of a list / map type, or a cycle), and each extra pass copies the
+    // symbols of the previous one into the new ones
+    let max_passes = types.len() + aliases.len() + 1;
 
     while pass_count < max_passes && !(types.is_resolved() && aliases.is_resolved()) {
         pass_count += 1;
